@@ -44,6 +44,10 @@ def seeds(sym, tier):
         out.append({'s': sigs[r][0], 'm': [i % ms for i in range(r)], 'n': (nch - 1) if r else 0, 'drop': None,
                     'var': ['fresh'], 'structural_only': True})
     out.append({'s': [1, -1, 1], 'm': [0, min(1, ms - 1), 0], 'n': nch - 1, 'drop': None, 'var': ['lazy', [2, 0, 1]]})
+    # seed tensors carrying two dimension-one charged legs (the virtual-leg pattern of operators): fusing and removing them
+    for axes in ((0, 0), (0, -1), (-1, -1)):
+        out.append({'s': [1, -1], 'm': [0, min(1, ms - 1)], 'n': 0, 'drop': None, 'var': ['fresh'],
+                    'pre': [{'op': 'add_leg', 'axis': axes[0], 's': 1, 't': 1}, {'op': 'add_leg', 'axis': axes[1], 's': -1 if axes[0] == axes[1] else 1, 't': 1}]})
     return out
 
 
@@ -81,9 +85,16 @@ def monitors(y, exp_n, lab, action):
     return None
 
 
+def build_seed(cfg, sym, td, seed):
+    x = GT.build(cfg, sym, {k: v for k, v in td.items() if k != 'pre'}, seed).x
+    for act in td.get('pre', []):
+        x = P.apply(x, act)[0][1]
+    return x
+
+
 def run_program(cfg, sym, td, seed, hist):
     """replays a history (list of [action, successor label]) on a fresh seed tensor; returns final tensor"""
-    x = GT.build(cfg, sym, td, seed).x
+    x = build_seed(cfg, sym, td, seed)
     for act, lab in hist:
         outs = P.apply(x, act)
         x = dict((l, y) for l, y, _ in outs)[lab]
@@ -93,7 +104,7 @@ def run_program(cfg, sym, td, seed, hist):
 def run_group(g, acc):
     sym = g['sym']
     cfg = GC.make(sym, dtype=g['dtype'])
-    x0 = GT.build(cfg, sym, g['td'], acc.seed).x
+    x0 = build_seed(cfg, sym, g['td'], acc.seed)
     m = monitors(x0, x0.n, 'seed', {'op': 'seed'})
     if m:
         acc.fail({'sym': sym, 'dtype': g['dtype'], 'td': g['td'], 'hist': []}, m)
